@@ -174,8 +174,14 @@ class ReviewedMatcher:
         self.sigs = panic_signature_table().get(prop, {})
         self.recorded = {}                   # for mkpanictable: key -> [signatures]
 
+    # indexing a Vec goes through Index::index (kind `index`), indexing a slice / array is a built-in with a bounds
+    # assert (kind `assert:bounds`): the same construct for review purposes
+    _SAME = {'index': 'assert:bounds', 'assert:bounds': 'index'}
+
     def match(self, body, short, kind, bb, cond=None):
         key = (short, kind)
+        if key not in self.reviewed and (short, self._SAME.get(kind)) in self.reviewed:
+            key = (short, self._SAME[kind])
         if key in self.reviewed and self.used.get(key, 0) < self.reviewed[key][0] and (cond is None or cond(body, bb)):
             self.used[key] = self.used.get(key, 0) + 1
             self.recorded.setdefault('%s|%s' % key, []).append(site_signature(body, kind, bb))
